@@ -791,10 +791,16 @@ func layoutQueueMeta(c *eng.Ctx) {
 		"all writers put the appended sequence at one offset and the ack at another, 8 bytes apart at least",
 		fmt.Sprintf("appended offsets %v, ack offsets %v", offs["appended"], offs["ack"]))
 	// reader
-	is := c.Fn(qT + ".initSequence")
+	is := p.Func(qT + ".initSequence")
+	if is == nil {
+		is = c.Fn("pkg/queue.NewQueue") // the restore written in place in the constructor
+	}
 	for _, s := range c.Some(is, eng.StoreField(qT+".appendedSeq", qT+".acknowledgedSeq"), "sequence restores") {
 		fa, _, _ := eng.AtomicOp(s.Instr)
 		v, _ := storedValue(s.Instr)
+		if _, isConst := eng.Unwrap(v).(*ssa.Const); isConst {
+			continue // the initial value of a new queue
+		}
 		reads := pageReadsIn(c, v)
 		want := ao
 		role := "appended"
